@@ -167,7 +167,7 @@ Lemma amount_cases (e : N) :
   let am := range_amount (r_start r) (len64 (r_hdrs r)) e in
   (e < s -> am = 0) /\
   (s <= e -> e < s + n -> am = e - s + 1) /\
-  (s + n < e -> am = n).
+  (s + n <= e -> am = n).
 Proof.
   cbn zeta. rewrite run_start. unfold len64. rewrite Hr. fold n. unfold range_amount.
   pose proof run_nowrap as Hw.
@@ -175,14 +175,13 @@ Proof.
   rewrite Hwr.
   repeat split; intros.
   - destruct (N.ltb_spec e s); [reflexivity|lia].
-  - destruct (N.ltb_spec e s); [lia|]. destruct (N.leb_spec e (s + n)); [|lia].
+  - destruct (N.ltb_spec e s); [lia|]. destruct (N.ltb_spec e (s + n)); [|lia].
     unfold sub64. destruct (N.leb_spec s e); [|lia]. unfold wrap64. apply N.mod_small. lia.
-  - destruct (N.ltb_spec e s); [lia|]. destruct (N.leb_spec e (s + n)); [lia|reflexivity].
+  - destruct (N.ltb_spec e s); [lia|]. destruct (N.ltb_spec e (s + n)); [lia|reflexivity].
 Qed.
 
-(** the only [end] for which Get/Remove leave the slice: one above the last height *)
+(** Get/Remove split the run at [end]: what is at or below it, and the rest *)
 Lemma get_remove_spec (e : N) :
-  e <> s + n ->
   exists g r',
     range_get e r = Some g /\ range_remove e r = Some r' /\
     r_hdrs r = g ++ r_hdrs r' /\
@@ -190,17 +189,14 @@ Lemma get_remove_spec (e : N) :
     (forall x, In x (r_hdrs r') -> e < h_height x) /\
     range_ok r'.
 Proof.
-  intros Hne. unfold range_get, range_remove.
+  unfold range_get, range_remove.
   destruct (amount_cases e) as (C1 & C2 & C4).
   remember (range_amount (r_start r) (len64 (r_hdrs r)) e) as am eqn:Eam. clear Eam.
-  assert (Hle : am <= n /\ ((e < s /\ am = 0) \/ (s <= e /\ e < s + n /\ am = e - s + 1) \/ (s + n < e /\ am = n))).
-  { destruct (N.lt_trichotomy e s) as [H|[H|H]].
+  assert (Hle : am <= n /\ ((e < s /\ am = 0) \/ (s <= e /\ e < s + n /\ am = e - s + 1) \/ (s + n <= e /\ am = n))).
+  { destruct (N.lt_ge_cases e s) as [H|H].
     - rewrite (C1 H). split; [lia|]. left; split; [exact H|reflexivity].
-    - destruct (N.lt_trichotomy e (s + n)) as [H'|[H'|H']]; [|contradiction|].
-      + rewrite (C2 ltac:(lia) H'). split; [lia|]. right; left. repeat split; lia.
-      + rewrite (C4 H'). split; [lia|]. right; right. split; [exact H'|reflexivity].
-    - destruct (N.lt_trichotomy e (s + n)) as [H'|[H'|H']]; [|contradiction|].
-      + rewrite (C2 ltac:(lia) H'). split; [lia|]. right; left. repeat split; lia.
+    - destruct (N.lt_ge_cases e (s + n)) as [H'|H'].
+      + rewrite (C2 H H'). split; [lia|]. right; left. repeat split; lia.
       + rewrite (C4 H'). split; [lia|]. right; right. split; [exact H'|reflexivity]. }
   destruct Hle as [Hle Hcase].
   unfold len64. rewrite Hr. fold n.
@@ -228,6 +224,29 @@ Proof.
 Qed.
 
 End amount.
+
+(** rangeAmount never exceeds the number of headers, whatever start, length and
+    end are: Get and Remove never slice out of range *)
+Lemma range_amount_le (start len e : N) : range_amount start len e <= len.
+Proof.
+  unfold range_amount. destruct (N.ltb_spec e start); [lia|].
+  destruct (N.ltb_spec e (wrap64 (start + len))) as [Hlt|]; [|lia].
+  assert (Hw : wrap64 (start + len) <= start + len) by (unfold wrap64; apply N.mod_le; discriminate).
+  assert (Hs : sub64 e start = e - start) by (unfold sub64; destruct (N.leb_spec start e); [reflexivity|lia]).
+  rewrite Hs. assert (Hm : wrap64 (e - start + 1) <= e - start + 1) by (unfold wrap64; apply N.mod_le; discriminate). lia.
+Qed.
+
+Lemma range_get_total e r : exists g, range_get e r = Some g.
+Proof.
+  unfold range_get. pose proof (range_amount_le (r_start r) (len64 (r_hdrs r)) e) as H.
+  destruct (N.leb_spec (range_amount (r_start r) (len64 (r_hdrs r)) e) (len64 (r_hdrs r))); [eexists; reflexivity|lia].
+Qed.
+
+Lemma range_remove_total e r : exists r', range_remove e r = Some r'.
+Proof.
+  unfold range_remove. pose proof (range_amount_le (r_start r) (len64 (r_hdrs r)) e) as H.
+  destruct (N.leb_spec (range_amount (r_start r) (len64 (r_hdrs r)) e) (len64 (r_hdrs r))); [eexists; reflexivity|lia].
+Qed.
 
 (** ** all headers held / head *)
 Lemma ranges_all_app rs rs' : ranges_all (rs ++ rs') = ranges_all rs ++ ranges_all rs'.
@@ -500,4 +519,87 @@ Proof.
       - cbn [app]. apply last_indep.
       - rewrite last_app' by discriminate. apply last_indep. }
     rewrite E. exact Ht.
+Qed.
+
+(** ** RemoveUpTo *)
+Lemma range_remove_empty e r : r_hdrs r = [] -> exists r', range_remove e r = Some r' /\ r_hdrs r' = [].
+Proof.
+  intros Hr. destruct (range_remove_total e r) as (r' & E). exists r'. split; [exact E|].
+  unfold range_remove in E. destruct (_ <=? _); [|discriminate]. injection E as <-. cbn. rewrite Hr.
+  destruct (N.to_nat _); reflexivity.
+Qed.
+
+Lemma range_remove_above e r a l :
+  r_hdrs r = a :: l -> range_ok r -> e < h_height a -> range_remove e r = Some r.
+Proof.
+  intros Hr Hok Hlt. destruct (amount_cases r a l Hr Hok e) as (C1 & _ & _). cbn zeta in C1.
+  pose proof (run_start r a l Hr Hok) as Hst.
+  unfold range_remove. rewrite (C1 Hlt). cbn [N.to_nat skipn].
+  destruct (N.leb_spec 0 (len64 (r_hdrs r))); [|lia].
+  destruct r as [hd st]. cbn in *. subst hd st. reflexivity.
+Qed.
+
+Lemma remove_upto_above e : forall lo rs, ne_inv lo rs -> e < lo -> ranges_remove_upto e rs = Some rs.
+Proof.
+  intros lo rs. revert lo. induction rs as [|r t IH]; intros lo H Hlt; [reflexivity|].
+  cbn [ne_inv] in H. destruct H as [Hok H]. destruct (r_hdrs r) as [|a l] eqn:Ea; [destruct H|]. destruct H as [Hlo Ht].
+  cbn [ranges_remove_upto]. rewrite (range_remove_above e r a l Ea Hok ltac:(lia)).
+  destruct Hok as (Hc & _ & _). rewrite Ea in Hc. pose proof (consec_bounds a l Hc _ (last_in l a)).
+  rewrite (IH _ Ht ltac:(lia)). reflexivity.
+Qed.
+
+Lemma remove_upto_ne e : forall rs lo,
+  ne_inv lo rs ->
+  exists rs', ranges_remove_upto e rs = Some rs' /\ rinv rs' /\
+    forall x, In x (ranges_all rs') <-> In x (ranges_all rs) /\ e < h_height x.
+Proof.
+  induction rs as [|r t IH]; intros lo H.
+  - exists []. split; [reflexivity|]. split; [exact I|]. intros x. cbn. tauto.
+  - pose proof H as Hne. cbn [ne_inv] in H. destruct H as [Hok H]. destruct (r_hdrs r) as [|a l] eqn:Ea; [destruct H|]. destruct H as [Hlo Ht].
+    destruct (get_remove_spec r a l Ea Hok e) as (g & r' & _ & Er & Hsp & Hg & Hr' & Hok').
+    destruct (IH _ Ht) as (t' & Et & Hrt & Hmt).
+    cbn [ranges_remove_upto]. rewrite Er.
+    assert (Hmem : forall x, In x (r_hdrs r') <-> In x (r_hdrs r) /\ e < h_height x).
+    { intros x. rewrite Hsp. rewrite in_app_iff. split.
+      - intros Hx. split; [right; exact Hx|apply Hr'; exact Hx].
+      - intros [[Hx|Hx] Hlt]; [specialize (Hg x Hx); lia|exact Hx]. }
+    destruct (r_hdrs r') as [|a' l'] eqn:Er'.
+    + (* the whole run is at or below e *)
+      rewrite Et. exists (r' :: t'). split; [reflexivity|]. split; [cbn [rinv]; rewrite Er'; exact Hrt|].
+      intros x. cbn. rewrite Er', Ea. cbn [app]. rewrite Hmt. rewrite <- Ea, in_app_iff. specialize (Hmem x). cbn in Hmem. tauto.
+    + (* part of the run survives: everything after it is untouched *)
+      assert (Ha' : e < h_height a') by (apply Hr'; left; reflexivity).
+      assert (Hin' : In a' (r_hdrs r)) by (apply Hmem; left; reflexivity).
+      destruct Hok as (Hc & Hf & Hs). rewrite Ea in Hc, Hin'.
+      pose proof (consec_bounds a l Hc a' Hin') as Hb.
+      rewrite (remove_upto_above e _ t Ht ltac:(lia)). exists (r' :: t). split; [reflexivity|]. split.
+      * apply (rinv_replace_first r r' t).
+        -- cbn [rinv]. rewrite Ea. exact Hne.
+        -- rewrite Ea. discriminate.
+        -- exact Hok'.
+        -- exists g. rewrite Er'. exact Hsp.
+      * intros x. cbn. rewrite Er', Ea. rewrite !in_app_iff. specialize (Hmem x). rewrite Ea in Hmem.
+        assert (Hxt : In x (ranges_all t) -> e < h_height x).
+        { intros Hx. pose proof (ne_inv_lo _ _ Ht x Hx). lia. }
+        unfold ranges_all in *. tauto.
+Qed.
+
+Theorem remove_upto_spec e rs :
+  rinv rs ->
+  exists rs', ranges_remove_upto e rs = Some rs' /\ rinv rs' /\
+    forall x, In x (ranges_all rs') <-> In x (ranges_all rs) /\ e < h_height x.
+Proof.
+  intros H. destruct (rinv_split rs H) as (es & ns & -> & Hes & Hns). clear H.
+  induction Hes as [|r es Hr Hes IH].
+  - cbn [app]. apply (remove_upto_ne e ns 0 Hns).
+  - destruct IH as (rs' & E & Hri & Hm). destruct (range_remove_empty e r Hr) as (r' & Er & Hr').
+    exists (r' :: rs'). cbn [app ranges_remove_upto]. rewrite Er, E. split; [reflexivity|]. split; [cbn [rinv]; rewrite Hr'; exact Hri|].
+    intros x. cbn. rewrite Hr', Hr. cbn [app]. apply Hm.
+Qed.
+
+(** without the invariant: RemoveUpTo never fails and only removes *)
+Lemma remove_upto_total e rs : exists rs', ranges_remove_upto e rs = Some rs'.
+Proof.
+  induction rs as [|r t IH]; [exists []; reflexivity|]. destruct IH as (t' & Et). destruct (range_remove_total e r) as (r' & Er).
+  exists (r' :: t'). cbn. rewrite Er, Et. reflexivity.
 Qed.
